@@ -145,7 +145,7 @@ def run(prog, ctx):
             sink_nodes.append(("call %s()" % c.j["callee"], c))
     for lhs, rhs, st in f.assignments():
         if not isinstance(lhs, dict) and rhs.strip().k == "DeclRefExpr" and rhs.strip().j.get("dk") == "enum" \
-                and rhs.strip().j.get("val") != 0 and st.within(L.loop):
+                and rhs.strip().j.get("val") != 0 and rhs.strip().j["name"] != "ECONF_NOMEM" and st.within(L.loop):
             sink_nodes.append(("error code %s" % rhs.strip().j["name"], st))
     for r in f.returns():
         if r.within(L.loop) and query.returned_constant(r) not in ("ECONF_NOMEM",):
